@@ -13,7 +13,7 @@ P = {
                  "C02_nonvacuous", "C02_order_independent", "C02_answer_is_first_acceptable", "C02_most_specific_wins",
                  "C02_no_backtracking_stops", "C02_backtracking_continues", "C02_match_decides_matches",
                  "C02_parsed_expressions_wellformed", "C02_wildcards_nonempty", "C02_escapes_are_literals",
-                 "C02_default_or_norule"],
+                 "C02_repository_find_rule", "C02_default_or_norule"],
     "streams": [{
         "name": "tree", "pkg": "./internal/x/radixtree", "test": "TestVerifC02Tree",
         "overlay": dict({"internal/x/radixtree/zz_verif_c02_test.go": "c02/c02_tree_test.go"}, **_OVERLAY_GEN),
